@@ -43,6 +43,15 @@ class World:
             n_first = len(self.sw.ncp.first_after_reset)
             # a later reset, as ControllerApplication._reset does it
             ez.stop_ezsp()
+            if self.p.get("restart2"):
+                # the NCP restarts on its own just then (a network co-processor daemon that crashed and came back): its RSTACK
+                # reaches the host while the second start-up waits for exactly such a reset on a socket path
+                sw = self.sw
+                sw.ash.reset()
+                sw.ncp.rebooted()
+                sw.ash.up.clear()
+                sw.ncp_up_seen = 0
+                sw.n2h.append(ref_ash.wire(ref_ash.enc_rstack(0x0B)))
             await ez.startup_reset()
             self.phase_log.append(("renegotiated", ez.ezsp_version, type(ez._protocol).VERSION, len(self.sw.ncp.first_after_reset) - n_first))
             await ez.write_config({})
@@ -99,7 +108,8 @@ class World:
         else:
             out.append((("end",), 0))
         # (the phases before the re-use are covered with faults by the configurations without it)
-        if self.steps < 3000 and not self.task.done() and (not self.p.get("reuse") or "reconfigured" in self.phase_log):
+        if self.steps < 3000 and not self.task.done() and (not (self.p.get("reuse") or self.p.get("restart2")) or "reconfigured" in self.phase_log or
+                                                           (self.p.get("restart2") and "configured" in self.phase_log)):
             for line, q in (("h2n", sw.h2n), ("n2h", sw.n2h)):
                 if q:
                     for f in ("drop", "corrupt", "dup") + (("dup2",) if line == "n2h" else ()):
@@ -263,6 +273,9 @@ def param_list(tier):
             out.append({"version": v, "path": "/dev/ttyFAKE", "spontaneous": "early"})
         if tier != "quick" or v in (4, 8, 15):
             out.append({"version": v, "path": "/dev/ttyFAKE", "spontaneous": None, "reuse": True})
+        if tier != "quick" or v in (7, 8, 15):
+            # the second start-up (socket path) sees a reset the NCP made on its own
+            out.append({"version": v, "path": "socket://host:1", "spontaneous": "early", "restart2": True})
     return out
 
 
